@@ -215,7 +215,11 @@ func c01Shapes(depth int) []*c01Shape {
 // c01Fillings enumerates, for h holes, every assignment of statement sequences with exactly n
 // statements in total (compositions of n in h parts x alphabet^n), in lexicographic order.
 func c01Fillings(h, n int, visit func(fill [][]int)) {
-	alpha := len(c01Alphabet)
+	c01FillingsAlpha(h, n, len(c01Alphabet), visit)
+}
+
+// c01FillingsAlpha is c01Fillings over an alphabet of the given size.
+func c01FillingsAlpha(h, n, alpha int, visit func(fill [][]int)) {
 	counts := make([]int, h)
 	var comp func(i, left int)
 	emit := func() {
